@@ -348,9 +348,10 @@ theorem mapM_sum_le {α β : Type} (f : α → Option β) (g : β → Nat) (hsz 
         simp only [List.map_cons, List.sum_cons]
         omega
 
-theorem decodeMembers_nodes {body : Bytes} {ms : List Simple} (h : decodeMembers body = some ms) :
-    2 * (ms.map simpleNodes).sum + 2 * ms.length + 2 ≤ body.length ∧ 1 ≤ ms.length := by
-  unfold decodeMembers at h
+/-- the member byte strings: as many as the count says (≥ 1), side by side inside the body behind the table -/
+theorem memberSlices_spec {body : Bytes} {ms : List Bytes} (h : memberSlices body = some ms) :
+    (ms.map List.length).sum + 2 * ms.length + 2 ≤ body.length ∧ 1 ≤ ms.length := by
+  unfold memberSlices at h
   cases hu : u16 body with
   | none => simp [hu] at h
   | some q =>
@@ -367,24 +368,36 @@ theorem decodeMembers_nodes {body : Bytes} {ms : List Simple} (h : decodeMembers
         split at h
         · rename_i hc
           obtain ⟨hhead, hinc, _⟩ := hc
+          simp only [Option.some.injEq] at h
+          subst h
           obtain ⟨hl, hn⟩ := readU16s_len hr
           have hb := u16_len hu
           have hsum := slices_sum body offs hinc
           rw [hhead] at hsum
           simp only [Option.getD_some] at hsum
-          have hlen := mapM_length _ _ _ h
-          rw [slices_length, hn] at hlen
-          have hm := mapM_sum_le decodeSimple (fun s => 2 * simpleNodes s) List.length _ _ h
-            (fun x y hxy => decodeSimple_nodes hxy)
-          have e : (ms.map fun s => 2 * simpleNodes s).sum = 2 * (ms.map simpleNodes).sum := by
-            clear h hlen hm
-            induction ms with
-            | nil => rfl
-            | cons a t ih => simp only [List.map_cons, List.sum_cons, ih]; omega
-          rw [e] at hm
+          rw [slices_length, hn]
           refine ⟨?_, by omega⟩
           omega
         · simp at h
+
+theorem decodeMembers_nodes {body : Bytes} {ms : List Simple} (h : decodeMembers body = some ms) :
+    2 * (ms.map simpleNodes).sum + 2 * ms.length + 2 ≤ body.length ∧ 1 ≤ ms.length := by
+  unfold decodeMembers at h
+  cases hm : memberSlices body with
+  | none => simp [hm] at h
+  | some sl =>
+    simp only [hm] at h
+    obtain ⟨h1, h2⟩ := memberSlices_spec hm
+    have hlen := mapM_length _ _ _ h
+    have hmm := mapM_sum_le decodeSimple (fun s => 2 * simpleNodes s) List.length _ _ h
+      (fun x y hxy => decodeSimple_nodes hxy)
+    have e : (ms.map fun s => 2 * simpleNodes s).sum = 2 * (ms.map simpleNodes).sum := by
+      clear h hlen hmm
+      induction ms with
+      | nil => rfl
+      | cons a t ih => simp only [List.map_cons, List.sum_cons, ih]; omega
+    rw [e] at hmm
+    exact ⟨by omega, by omega⟩
 
 /-- **the parse tree is no larger than the input**: requests, path segments and bundle members together
 (each of them one pass of a parser loop) number at most half the bytes -/
@@ -415,6 +428,157 @@ theorem decodeReq_nodes {bs : Bytes} {r : Req} (h : decodeReq bs = some r) : 2 *
         simp only [hs, Option.map_some, Option.some.injEq] at h
         subst h
         exact decodeSimple_nodes hs
+
+/-! ### the work of the bundle parser -/
+
+theorem sum_map_le_mul (f : Bytes → Nat) (k : Nat) (l : List Bytes) (h : ∀ x ∈ l, f x ≤ k * x.length) :
+    (l.map f).sum ≤ k * (l.map List.length).sum := by
+  induction l with
+  | nil => simp
+  | cons a t ih =>
+    have h1 := h a (by simp)
+    have h2 := ih (fun x hx => h x (by simp [hx]))
+    simp only [List.map_cons, List.sum_cons, Nat.mul_add]
+    omega
+
+/-- **true complexity**: a request nested `fuel` levels deep costs at most `fuel` passes over its bytes -/
+theorem scanCost_le (fuel : Nat) (bs : Bytes) : scanCost fuel bs ≤ fuel * bs.length := by
+  induction fuel generalizing bs with
+  | zero => simp [scanCost]
+  | succ n ih =>
+    unfold scanCost
+    have base : bs.length + 0 ≤ (n + 1) * bs.length := by
+      rw [Nat.add_mul]; omega
+    cases bs with
+    | nil => simp
+    | cons svc r0 =>
+      simp only
+      split
+      · cases he : decodeEpath false r0 with
+        | none => exact base
+        | some q =>
+          obtain ⟨p, body⟩ := q
+          simp only
+          cases hm : memberSlices body with
+          | none => exact base
+          | some ms =>
+            simp only
+            have hb := decodeEpath_progress he
+            have hs := (memberSlices_spec hm).1
+            have hsum := sum_map_le_mul (scanCost n) n ms (fun x _ => ih x)
+            have : n * (ms.map List.length).sum ≤ n * (svc :: r0).length := by
+              apply Nat.mul_le_mul_left
+              simp only [List.length_cons]; omega
+            rw [Nat.add_mul]
+            omega
+      · exact base
+
+/-- a member that is a complete non-bundle request costs one pass -/
+theorem scanCost_simple {bs : Bytes} {s : Simple} (h : decodeSimple bs = some s) (fuel : Nat) :
+    scanCost (fuel + 1) bs = bs.length := by
+  unfold scanCost
+  cases bs with
+  | nil => simp [decodeSimple] at h
+  | cons svc r0 =>
+    simp only
+    split
+    · rename_i hsvc
+      -- decodeSimple knows no service 0x0a
+      exfalso
+      unfold decodeSimple at h
+      simp only at h
+      cases he : decodeEpath false r0 with
+      | none => simp [he] at h
+      | some q =>
+        obtain ⟨p, r⟩ := q
+        have e1 : ¬ Generated.svcMultiple = Generated.svcReadTag := by decide
+        have e2 : ¬ Generated.svcMultiple = Generated.svcReadFrag := by decide
+        have e3 : ¬ Generated.svcMultiple = Generated.svcWriteTag := by decide
+        have e4 : ¬ Generated.svcMultiple = Generated.svcWriteFrag := by decide
+        have e5 : ¬ Generated.svcMultiple = Generated.svcGetAttrSingle := by decide
+        have e6 : ¬ Generated.svcMultiple = Generated.svcSetAttrSingle := by decide
+        have e7 : ¬ Generated.svcMultiple = Generated.svcGetAttrAll := by decide
+        simp only [he, hsvc, e1, e2, e3, e4, e5, e6, e7, if_false] at h
+        exact absurd h (by simp)
+    · rfl
+
+theorem mapM_all_some {α β : Type} (f : α → Option β) (l : List α) (r : List β) (h : l.mapM f = some r) :
+    ∀ x ∈ l, ∃ y, f x = some y := by
+  induction l generalizing r with
+  | nil => intro x hx; simp at hx
+  | cons a t ih =>
+    rw [List.mapM_cons] at h
+    cases hfa : f a with
+    | none => simp [hfa] at h
+    | some b =>
+      cases ht : t.mapM f with
+      | none => simp [hfa, ht] at h
+      | some bs =>
+        intro x hx
+        rcases List.mem_cons.mp hx with rfl | hx
+        · exact ⟨b, hfa⟩
+        · exact ih bs ht x hx
+
+theorem sum_map_le_sum (f g : Bytes → Nat) (l : List Bytes) (h : ∀ x ∈ l, f x ≤ g x) :
+    (l.map f).sum ≤ (l.map g).sum := by
+  induction l with
+  | nil => simp
+  | cons a t ih =>
+    have h1 := h a (by simp)
+    have h2 := ih (fun x hx => h x (by simp [hx]))
+    simp only [List.map_cons, List.sum_cons]
+    omega
+
+/-- **linear for the model's grammar** (no bundle inside a bundle): two passes at most -/
+theorem scanCost_decoded {bs : Bytes} {r : Req} (h : decodeReq bs = some r) (fuel : Nat) :
+    scanCost fuel bs ≤ 2 * bs.length := by
+  cases fuel with
+  | zero => simp [scanCost]
+  | succ n =>
+    unfold decodeReq at h
+    cases bs with
+    | nil => simp at h
+    | cons svc r0 =>
+      simp only at h
+      split at h
+      · rename_i hsvc
+        cases he : decodeEpath false r0 with
+        | none => simp [he] at h
+        | some q =>
+          obtain ⟨p, body⟩ := q
+          simp only [he] at h
+          cases hm : decodeMembers body with
+          | none => simp [hm] at h
+          | some ms =>
+            unfold decodeMembers at hm
+            cases hsl : memberSlices body with
+            | none => simp [hsl] at hm
+            | some sl =>
+              simp only [hsl] at hm
+              unfold scanCost
+              simp only [hsvc, if_true, he, hsl]
+              have hall := mapM_all_some _ _ _ hm
+              have hle : (sl.map (scanCost n)).sum ≤ (sl.map List.length).sum := by
+                apply sum_map_le_sum
+                intro x hx
+                obtain ⟨y, hy⟩ := hall x hx
+                cases n with
+                | zero => simp [scanCost]
+                | succ k => rw [scanCost_simple hy k]; exact Nat.le_refl _
+              have := (memberSlices_spec hsl).1
+              have := decodeEpath_progress he
+              simp only [List.length_cons] at *
+              omega
+      · cases hs : decodeSimple (svc :: r0) with
+        | none => simp [hs] at h
+        | some s =>
+          rw [scanCost_simple hs n]
+          omega
+
+end Cpppo.Serve
+
+namespace Cpppo.Serve
+open Cpppo.Logix
 
 /-! ### state protection -/
 
